@@ -353,7 +353,7 @@ func (c *chain) create() bool {
 	seal(h, c.chainID, signer.key)
 	c.m = &model{
 		chainID: c.chainID, epoch: c.epoch, anchor: anchor, cur: cur, pend: list, head: h, headHash: blockHash(h),
-		signers: map[uint64]common.Address{anchor: signer.addr}, recents: map[uint64]common.Address{anchor: signer.addr},
+		signers: map[uint64]common.Address{anchor: signer.addr}, recents: map[uint64]common.Address{anchor: signer.addr}, kept: map[uint64]common.Address{anchor: signer.addr},
 		roots: map[uint64][]byte{anchor: h.Root}, history: []*bsctypes.Header{h},
 	}
 	cs := &bsctypes.ClientState{Header: *h, ChainId: c.chainID, Epoch: c.epoch, BlockInteval: 3, Validators: addrBytes(cur), ContractAddress: rnd(rng, 20), TrustingPeriod: 1 << 40}
@@ -1022,6 +1022,9 @@ func (c *chain) try(cd cand) (ok bool, m2 *model, write func()) {
 			}
 		}
 		r.Violation(c.id, key, c.detail(cd.class, h, verdict, reason, err, nil))
+		return false, nil, nil
+	case verdict == knownGap && accepted:
+		r.Violation(c.id, "accepted-ineligible/"+reason, c.detail(cd.class, h, verdict, reason, err, nil))
 		return false, nil, nil
 	case verdict == mustAccept && !accepted:
 		r.Violation(c.id, "rejected-eligible/"+group(cd.class), c.detail(cd.class, h, verdict, reason, err, nil))
